@@ -226,7 +226,7 @@ class Run:
             self.inconclusive_because(r)
         for k, v in d["extra"].items():
             if isinstance(v, (int, float)) and isinstance(self.extra.get(k), (int, float)):
-                self.extra[k] += v
+                self.extra[k] = max(self.extra[k], v) if k.startswith("max_") else self.extra[k] + v
             elif isinstance(v, dict) and isinstance(self.extra.get(k), dict):
                 for kk, vv in v.items():
                     if isinstance(vv, (int, float)) and isinstance(
